@@ -412,6 +412,9 @@ func runC10(r *Run) {
 	// deadlines and collection times are on one time line: otherwise no transaction ever times out and the handler of
 	// an unanswered request is never invoked (shared with C11)
 	r.Borrow("C11", map[string]string{"C11.clock": "C10.clock"})
+	// a found transaction is completed, never handed to the fallback handler instead: the agent has already dropped
+	// its side, so nothing else would ever complete it (shared with C12)
+	r.Borrow("C12", map[string]string{"C12.fallback": "C10.fallback"})
 }
 
 func checkCallbackPaths(r *Run, rc *RuleCtx, m *clientModel, k *keyer) {
